@@ -30,15 +30,18 @@ Definition owning_step (st : option qstate) (k : N) (ins : list N) : option qsta
     | _, _ => (st, [77777]) end
   else (st, [77777]).
 
-(* 1950 monitor: [size; bufsz; posted_after; class; has; len; token; expected_token; bytes_match; u_len] *)
+(* 1950 monitor: [size; bufsz; posted_after; class; has; len; token; expected_token; bytes_match; u_len; hres; pending]
+   pending: a completion the driver had not consumed was in the used ring when the poll started (u_len: its recorded length) *)
 Definition mon_owning (ins : list N) : bool :=
   match ins with
-  | [size; bufsz; posted; class; has; len; tok; exp_tok; bytes_ok; u_len; hres] =>
+  | [size; bufsz; posted; class; has; len; tok; exp_tok; bytes_ok; u_len; hres; pending] =>
       (* whatever the handler answered and whatever length the device claimed: stocked again *)
       (posted =? size)
       && (if (class =? 0) && (has =? 1) then
             (tok =? exp_tok) && (len =? u_len) && (len <=? bufsz) && (bytes_ok =? 1)
-          else if class =? 0 then true
+          (* Ok(None): nothing was pending, or the caller's handler said so; a pending completion that fits its buffer and
+             that the handler would have taken is never swallowed (each completion is delivered exactly once) *)
+          else if class =? 0 then negb ((pending =? 1) && (hres =? 0) && (u_len <=? bufsz))
           else if class =? 1 then (bufsz <? u_len) || (hres =? 2)   (* the only errors a conforming-token device / the handler can cause *)
           else false)
   | _ => false
